@@ -135,7 +135,7 @@ def run(tier):
                 o["row"] = dict(o["row"], id=rid)
         sc.update(conc=True, seed=rng.randrange(1 << 30))
         conc.append(sc)
-    seqfam.run_scenarios(res, scen, "TraceJoin", tag="join", relayout_p=0.3)
+    seqfam.run_scenarios(res, scen, "TraceJoin", tag="join", relayout_p=0.3, retype_p=0.3)
     seqfam.run_scenarios(res, conc, "TraceJoinConc", tag="joinconc")
     res.cov["exhaustive"] = False
     res.cov["distinct_nontrivial"] = len({json.dumps(s["ops"], sort_keys=True) + s["sql"] for s in scen})
